@@ -97,7 +97,8 @@ impl Property for C06 {
     }
     fn strategy(&self, tier: Tier) -> BoxedStrategy<Case> {
         let cfg = TexCfg { depth: if tier == Tier::Thorough { 5 } else { 4 }, size: 22, tables: true, text: true };
-        let codes: Vec<&str> = if tier == Tier::Thorough { vec!["Nemeth", "UEB", "CMU", "Vietnam", "LaTeX", "ASCIIMath", "Swedish", "ASCIIMath-fi"] } else { vec!["Nemeth", "UEB", "CMU", "Vietnam", "LaTeX", "ASCIIMath"] };
+        let _ = tier;
+        let codes: Vec<&str> = vec!["Nemeth", "UEB", "CMU", "Vietnam", "LaTeX", "ASCIIMath", "Swedish", "ASCIIMath-fi"];
         let prefs = (sel(&["Grade1", "Grade2"]), any::<bool>(), any::<bool>(), any::<bool>(), any::<bool>()).prop_map(|(start, spaces, drop, short, spaces2)| vec![("UEB_StartMode".to_string(), start.to_string()), ("UEB_UseSpacesAroundAllOperators".to_string(), spaces.to_string()), ("Vietnam_UseDropNumbers".to_string(), drop.to_string()), ("LaTeX_UseShortName".to_string(), short.to_string()), ("UseSpacesAroundAllOperators".to_string(), spaces2.to_string())]);
         (prop_oneof![planted_textbook(true, 0.25, cfg.clone()), planted_textbook(false, 0.25, cfg)], sel(&codes), prefs).prop_map(|(planted, code, prefs)| Case { planted, code: code.to_string(), prefs }).boxed()
     }
@@ -182,6 +183,6 @@ impl Property for C06 {
         (30000, 400000)
     }
     fn rule(&self) -> String {
-        "cases = textbook-grammar expressions with a distinct literal (decimal NN.DD or integer NNDD) planted at every operand position x braille code {Nemeth, UEB, CMU, Vietnam, LaTeX, ASCIIMath (+Swedish, ASCIIMath-fi in thorough)} x code preferences; oracle = text codes: the literal occurs verbatim; cell codes: the literal's digit cells -- the published ones (Nemeth lower cells, upper cells for the others, lower cells as alternative where digits are dropped) with the decimal-mark cells calibrated by brailling 12.34 alone in the same session -- occur as a contiguous run at least as often as the literal occurs in the expression; non-trivial = >= 3 literals, one inside a 2-D element".into()
+        "cases = textbook-grammar expressions with a distinct literal (decimal NN.DD or integer NNDD) planted at every operand position x braille code {Nemeth, UEB, CMU, Vietnam, LaTeX, ASCIIMath, Swedish, ASCIIMath-fi} x code preferences; oracle = text codes: the literal occurs verbatim; cell codes: the literal's digit cells -- the published ones (Nemeth lower cells, upper cells for the others, lower cells as alternative where digits are dropped) with the decimal-mark cells calibrated by brailling 12.34 alone in the same session -- occur as a contiguous run at least as often as the literal occurs in the expression; non-trivial = >= 3 literals, one inside a 2-D element".into()
     }
 }
